@@ -199,17 +199,23 @@ def _set_flag(rows, rng):
 
 # ----------------------------------------------------------------------------- C04 / C05
 
-def _corrupt_ints(rows, rng):
+def _corrupt_ints_range(rows, rng):
+    """C04: an accepted conversion whose recorded result is pushed out of range."""
     cand = [i for i, r in enumerate(rows) if r[0] in (0, 2) and r[6] == 1]
     if not cand:
-        cand = [i for i, r in enumerate(rows) if r[0] == 4]
-        if not cand:
-            return None
-        i = rng.choice(cand)
-        rows[i][6] += 1
-        return i
+        return None
     i = rng.choice(cand)
     rows[i][7] = rows[i][7] + 20000
+    return i
+
+
+def _corrupt_ints_value(rows, rng):
+    """C05: a conversion to a primitive whose recorded value is changed by one."""
+    cand = [i for i, r in enumerate(rows) if r[0] == 4]
+    if not cand:
+        return None
+    i = rng.choice(cand)
+    rows[i][6] += 1
     return i
 
 
@@ -217,7 +223,7 @@ def c04(ctx):
     import gen
     run_mc_pure(ctx, "MC_Ints", {}, ["Inv"], tag="MC_Ints")
     d, f, n = run_table(ctx, "ints", config="std", per=20000)
-    table_canary(ctx, d, "ints", _corrupt_ints)
+    table_canary(ctx, d, "ints", _corrupt_ints_range)
     shutil.rmtree(d, ignore_errors=True)
     d, f, n = run_table(ctx, "ints", config="nostd", per=20000)
     shutil.rmtree(d, ignore_errors=True)
@@ -243,7 +249,7 @@ def c04(ctx):
 def c05(ctx):
     run_mc_pure(ctx, "MC_Ints", {}, ["Inv"], tag="MC_Ints")
     d, f, n = run_table(ctx, "ints", config="std", per=20000)
-    table_canary(ctx, d, "ints", _corrupt_ints)
+    table_canary(ctx, d, "ints", _corrupt_ints_value)
     shutil.rmtree(d, ignore_errors=True)
     d, f, n = run_table(ctx, "ints", config="nostd", per=20000)
     finish_pure(ctx, "rows: value columns of every into-conversion (exhaustive for 8/16-bit and newtype sources, swept for wider "
